@@ -13,6 +13,8 @@ Fixpoint spec_ity (d : dkind) : ity :=
   | DOther => IFail
   | DList [] => IListBare                    (* nothing to go by: a list of whatever is written *)
   | DList (x :: _) => IList (spec_ity x)      (* items are assumed to have the type of the first *)
+  | DDict true => IDictBare                  (* {}: an option of type dict that keeps the default *)
+  | DDict false => IFail                     (* nothing is demanded *)
   end.
 Definition bty_eqb (a b : bty) : bool :=
   match a, b with TInt, TInt | TStr, TStr | TFloat, TFloat | TBool, TBool => true | _, _ => false end.
@@ -25,6 +27,7 @@ Fixpoint ity_eqb (a b : ity) : bool :=
   | IFail, IFail => true
   | IList x, IList y => ity_eqb x y
   | IListBare, IListBare => true
+  | IDictBare, IDictBare => true
   | _, _ => false
   end.
 Definition spec_inferred (untyped : list (string * dkind)) (observed : list (string * ity)) : bool :=
